@@ -12,12 +12,15 @@ CTX = {}
 
 
 def gen_case(rng):
+    if rng.random() < 0.12:
+        return {'kind': 'emitleak', 'mode': 'schemaless', 'at': rng.choice([1, 2]), 'ticks': rng.choice([3, 4]),
+                'state': rng.choice(['hello', 5, 0])}
     if rng.random() < 0.3:
         return {'kind': 'emitleak', 'mode': 'globs', 'order': rng.choice(['mass-first', 'volume-first']),
                 'late': rng.random() < 0.6, 'ticks': rng.choice([2, 3]), 'depth': rng.choice([1, 1, 2])}
     return {'kind': 'emitleak', 'order': rng.choice(['over-first', 'plain-first']),
             'late': rng.random() < 0.5, 'ticks': rng.choice([2, 3]),
-            'via': rng.choice(['_schema', '_schema', 'merge', 'merge2'])}
+            'via': rng.choice(['_schema', '_schema', 'merge', 'merge2', 'reuse'])}
 
 
 def corpus():
@@ -26,9 +29,43 @@ def corpus():
             # the flags are switched by Composite.merge(schema_override=…): in the last merge, or one merge earlier
             {'kind': 'emitleak', 'order': 'over-first', 'late': False, 'ticks': 2, 'via': 'merge'},
             {'kind': 'emitleak', 'order': 'over-first', 'late': False, 'ticks': 2, 'via': 'merge2'},
+            # the composite was used once (a store generated from it) before the flags were merged in
+            {'kind': 'emitleak', 'order': 'over-first', 'late': False, 'ticks': 2, 'via': 'reuse'},
+            # a variable without any schema (created by `_add` into a store that has no glob schema) is not flagged
+            {'kind': 'emitleak', 'mode': 'schemaless', 'at': 1, 'ticks': 3, 'state': 'hello'},
             # two glob declarations on one store flag different variables below the same nested key
             {'kind': 'emitleak', 'mode': 'globs', 'order': 'mass-first', 'late': True, 'ticks': 3, 'depth': 1},
             {'kind': 'emitleak', 'mode': 'globs', 'order': 'volume-first', 'late': False, 'ticks': 2, 'depth': 2}]
+
+
+def _run_schemaless(case):
+    from vivarium.core.engine import Engine
+    from vivarium.core.process import Process
+
+    class Noter(Process):
+        def __init__(self, parameters=None):
+            super().__init__(parameters)
+            self.n = 0
+
+        def ports_schema(self):
+            return {'s': {'a': {'_default': 1.0, '_emit': True}, 'quiet': {'_default': 2.0, '_emit': False}}}
+
+        def next_update(self, timestep, states):
+            self.n += 1
+            upd = {'a': 1.0}
+            if self.n == case['at']:
+                upd['_add'] = [{'key': 'note', 'state': case['state']}]
+            return {'s': upd}
+    obs = {}
+    try:
+        eng = Engine(processes={'noter': Noter()}, topology={'noter': {'s': ('s',)}}, display_info=False,
+                     progress_bar=False)
+        eng.update(case['ticks'])
+        obs['rows'] = [[float(t), r] for t, r in sorted(eng.emitter.get_data().items())]
+        obs['held'] = sorted((eng.state.get_value().get('s') or {}).keys())
+    except Exception as e:  # noqa
+        obs['raised'] = f'{type(e).__name__}: {str(e)[:200]}'
+    return obs
 
 
 def _run_globs(case, key, rows):
@@ -113,6 +150,9 @@ def run_impl(case):
     if emitter_registry.access('verif_el') is None:
         emitter_registry.register('verif_el', RowEmitter)
     obs = {'rows': rows}
+    if case.get('mode') == 'schemaless':
+        CTX.pop(key, None)
+        return _run_schemaless(case)
     if case.get('mode') == 'globs':
         try:
             _run_globs(case, key, rows)
@@ -141,6 +181,8 @@ def run_impl(case):
         else:
             from vivarium.core.composer import Composite
             comp = Composite({'processes': processes, 'topology': topology})
+            if via == 'reuse':
+                comp.generate_store()         # a first use of the process objects, before the override exists
             comp.merge(schema_override={'cells': {'a': {'cell': flags}}})
             if via == 'merge2':
                 comp.merge(state={'marker': {'m': 1}})        # a later merge that carries no override
@@ -165,6 +207,15 @@ def oracle(case, impl):
         return []
     if impl.get('raised'):
         return [f'engine-raised: {impl["raised"]}']
+    if case.get('mode') == 'schemaless':
+        for t, row in impl['rows']:
+            want = {'s': {'a': 1.0 + t}}
+            if row != want:
+                return [f'row: at {t} the row is {row}; the flagged variables hold {want} (a variable created at run '
+                        f'time without any schema carries no emit flag; the hierarchy holds {impl["held"]})']
+        if len(impl['rows']) != 1 + case['ticks']:
+            return [f'row: {len(impl["rows"])} rows for {case["ticks"]} batches']
+        return []
     if case.get('mode') == 'globs':
         for r in impl['rows']:
             for k, got in sorted(r['cells'].items()):
